@@ -431,6 +431,14 @@ def assemble(ub):
             L.append(';' if fs.body is None else '{' + fs.body + '}')
     for c in em.fn_order:
         txt = em.fn_text[c]
+        # call-site ordinals: an expression the emitter evaluated twice (once to type it) leaves a gap in
+        # the ordinals of the surviving call sites; close the gaps per callee so that ordinals are 0..n-1
+        seen = {}
+        for mm in re.finditer(r'/\*@CALL (\S+) (\S+) (\d+)@\*/', txt):
+            seen.setdefault(mm.group(2), set()).add(int(mm.group(3)))
+        remap = {cal: {k: i for i, k in enumerate(sorted(ks))} for cal, ks in seen.items()}
+        txt = re.sub(r'/\*@CALL (\S+) (\S+) (\d+)@\*/',
+                     lambda mm: '/*@CALL %s %s %d@*/' % (mm.group(1), mm.group(2), remap[mm.group(2)][int(mm.group(3))]), txt)
         fs = us.functions.get(c)
         first = len(L) + 1
         out = LineList()
